@@ -137,6 +137,30 @@ def replay_case(case, tag, rng, tier):
                 if why:
                     bad("C19.intersection", "intersection of objects differing by %s is not the object itself at eps = %.0e: %s" % (c["delta"], eps, why),
                         dict(sig, what="intersection"), [o])
+        # general-form planes: a coefficient (also a zero one) perturbed by eps/1000 or eps/100 denotes, within the
+        # tolerance and on the bounded catalogue domain, the same plane
+        for _ in range(3):
+            nrm = rng.choice(((0, 0, 1), (0, 1, 0), (1, 0, 0), (0, 3, 4), (1, 2, 2)))
+            d = rng.choice((0.5, -1.25, 2.0))
+            i = rng.randrange(3)
+            dl = rng.choice((eps / 1000.0, eps / 100.0)) * rng.choice((1, -1))
+            co = [float(x) for x in nrm]
+            co2 = list(co)
+            co2[i] += dl
+            ref, e1 = call(G.Plane, co[0], co[1], co[2], d)
+            per, e2 = call(G.Plane, co2[0], co2[1], co2[2], d)
+            out["calls"] += 2
+            sig = {"op": "compare", "kind": "Plane", "delta": "coefficient", "eps_exp": cfg["exp"], "what": "general_form"}
+            if e1 is not None or e2 is not None:
+                bad("C19.general_form", "Plane(a,b,c,d) with a coefficient perturbed by %.1e raised %s" % (dl, (e1 or e2)["cls"]), sig)
+                continue
+            for nm, f in (("per == ref", lambda: per == ref), ("ref == per", lambda: ref == per), ("per.p in ref", lambda: per.p in ref),
+                          ("ref.p in per", lambda: ref.p in per)):
+                val, exc = call(f)
+                if exc is not None or val is not True:
+                    bad("C19.general_form", "%s is %r for Plane%r vs coefficient %d perturbed by %.1e at eps = %.0e" % (
+                        nm, exc["cls"] if exc else val, tuple(co) + (d,), i, dl, eps), sig)
+                    break
     finally:
         G.set_eps()
     if not out["mism"]:
